@@ -869,6 +869,82 @@ func (c *c06Case) doDelete(n int, key string) {
 	c.emit(ev, itoa(int(c.now()))+"!"+c.snap(n))
 }
 
+// scriptUnknownLeft: the removal of an instance reaches a replica that holds the key but has never
+// heard of that instance, BEFORE any message carrying the instance's registration; the older
+// registration message arrives afterwards (reordering within the retention). The replica must keep
+// the tombstone (it learned of the removal), must not show the instance, and must forward the tombstone.
+func (c *c06Case) scriptUnknownLeft() {
+	r := c.r
+	a, b, cc := 0, 1, 2
+	if r.chance(1, 2) {
+		a, b, cc = r.intn(3), 0, 0
+		b = (a + 1 + r.intn(2)) % 3
+		cc = 3 - a - b
+	}
+	key := pick(r, []string{"r1", "r2"})
+	x := pick(r, c06RingIDs[:3])
+	other := "d"
+	hb := func(id string) string {
+		d, _ := c.nextDelta(key + id)
+		return "hb:" + id + ":" + itoa(d) + ":" + stateCode[pick(r, c06States)] + ":" + itoa(1+r.intn(15))
+	}
+	deliverNew := func(from, to int, want string) {
+		// deliver every pooled message of `from` that carries instance `want` to node `to`
+		for m := range c.pool {
+			if c.pool[m].origin != from {
+				continue
+			}
+			if _, ct := c.decodeMsgK(c.pool[m].data, true, false); strings.Contains(ct, "^"+want+"/") || strings.Contains(ct, ";"+want+"/") {
+				c.doDeliver(to, m)
+			}
+		}
+	}
+	// C holds the key with another instance only
+	c.doCAS(cc, key, hb(other))
+	if r.chance(1, 2) {
+		c.doWatch(cc, false, key)
+	}
+	// x registers at A; the registration is on the wire
+	c.doCAS(a, key, hb(x))
+	c.doGossip(a)
+	remover := a
+	if r.chance(2, 3) {
+		remover = b
+		deliverNew(a, b, x)
+	}
+	if r.chance(1, 3) {
+		c.doCAS(a, key, hb(x)) // one more heartbeat, also delayed
+		c.doGossip(a)
+	}
+	// removal (unregistration at A, or an operator forgetting x at B)
+	c.doCAS(remover, key, "rm:"+x)
+	nPool := len(c.pool)
+	if r.chance(2, 3) {
+		// the tombstone overtakes the registration: incremental broadcast
+		c.doGossip(remover)
+		for m := nPool; m < len(c.pool); m++ {
+			c.doDeliver(cc, m)
+		}
+	} else {
+		// ... or a full-state exchange
+		c.doPushPull(remover, cc, "", 0)
+	}
+	// now the older registration message(s) arrive at C
+	for m := 0; m < nPool; m++ {
+		if c.pool[m].origin == a {
+			if _, ct := c.decodeMsgK(c.pool[m].data, true, false); strings.Contains(ct, "^"+x+"/") || strings.Contains(ct, ";"+x+"/") {
+				c.doDeliver(cc, m)
+			}
+		}
+	}
+	// C forwards what it learned
+	c.doGossip(cc)
+	if r.chance(1, 2) {
+		c.doPushPull(cc, (cc+1)%3, "", 0)
+	}
+	c.doSettle("st")
+}
+
 // ---------------------------------------------------------------- generator (online, seeded)
 
 // nextDelta hands out strictly decreasing deltas per entry so that every (entry, timestamp) is written
@@ -1066,9 +1142,12 @@ func (c *c06Case) run() (cfg, events, obs string) {
 		c.doDeliver(1, len(c.pool)-1)
 		c.doSettle("st")
 	}
+	if o.script == "unknownleft" && o.nNodes >= 3 {
+		c.scriptUnknownLeft()
+	}
 	for step := 0; step < o.nEvents; step++ {
 		n := r.intn(o.nNodes)
-		if step < 2 {
+		if step < 2 && o.script == "" {
 			c.genCAS(n)
 			continue
 		}
@@ -1247,6 +1326,11 @@ func runC06(e *env) {
 	c06RunMany(e, "C06.run", 1400*e.scale, 1, func(i int, r *rng) c06Opts {
 		return c06Opts{nNodes: 2 + r.intn(5), mult: 1 + r.intn(3), lit: pick(r, []int{0, 300, 300}), ni: r.chance(1, 4),
 			nEvents: 12 + r.intn(30), removal: 15 + r.intn(25)}
+	})
+	// reordering scenario: the tombstone of an instance reaches a replica that never heard of it first
+	c06RunMany(e, "C06.run", 120*e.scale, 7, func(i int, r *rng) c06Opts {
+		return c06Opts{nNodes: 3 + r.intn(3), mult: 1 + r.intn(3), lit: pick(r, []int{0, 300}), ni: r.chance(1, 5),
+			nEvents: r.intn(14), removal: 25, script: "unknownleft"}
 	})
 	// clash stream (outside the quantifier: observation only), GC stream, clock-skew stream
 	c06RunMany(e, "C06.run", 150*e.scale, 2, func(i int, r *rng) c06Opts {
